@@ -502,6 +502,11 @@ def main_search(seed, n, maxops, workdir, full_seed_matrix=False):
                                                        ["formulate", 1, []], ["assign", 1, 1, 11], ["assign", 1, 0, 6],
                                                        ["formulate", 1, []]]})
     # dynamics re-assigned by node (both overloads) AFTER a formulate, no by-name assign in between
+    # a formulate() that raises half-way (form factor without angular momentum in the helicity formalism),
+    # then a different, valid configuration on the same builder
+    fixed.append({"reaction": "jpsi_ksp_hel", "ops": [["new", 0], ["helcoup", 0, True], ["assign", 0, 0, 1], ["assign", 0, 1, 4],
+                                                     ["formulate", 0, []], ["helcoup", 0, False], ["assign", 0, 1, 0],
+                                                     ["assign", 0, 0, 0], ["formulate", 0, []]]})
     _dk = info["jpsi_ksp_hel"]["decays_of"][0]
     fixed.append({"reaction": "jpsi_ksp_hel", "ops": [["new", 0], ["formulate", 0, []],
                                                      ["assigndecay", 0, _dk[0][0], 1, "decay"], ["formulate", 0, []],
